@@ -308,7 +308,7 @@ func F1LogSets(min, max uint64, hs int) [][]refdb.Log {
 	var out [][]refdb.Log
 	for _, ss := range subsets(len(keys), 3) {
 		k := len(ss)
-		const nv = 11
+		const nv = 12
 		nk := 1
 		for i := 0; i < k; i++ {
 			nk *= nv
@@ -340,6 +340,10 @@ func F1LogSets(min, max uint64, hs int) [][]refdb.Log {
 						l.New = Oid("only-new", hs)
 					case 10:
 						l.Old = Oid("only-old", hs)
+					case 11:
+						// the "this reflog exists" marker: an update entry whose hashes are explicitly all-zero and
+						// whose other fields are empty - not a deletion
+						l.Old, l.New = make([]byte, hs), make([]byte, hs)
 					}
 					logs = append(logs, l)
 				}
